@@ -64,24 +64,25 @@ Definition chk_acquire (pol : policy) (now : Z) (h : chk) (o : obs) : bool :=
             else same h s' i')
   end.
 
-(** what the recording of a result may show; [None] = the contract is silent
-    (result reported against the id of an OPEN state, which admits nothing;
-     zero-sized windows) *)
+(** what the recording of a result may show.  Where the contract says nothing about the
+    result itself (a result reported against the id of an OPEN state, which admits nothing;
+    zero-sized windows, on which the code panics) the breaker must still stay as it is: only
+    the panic flag is left free there.  (Always [Some]; the option is kept for the callers.) *)
 Definition chk_record (pol : policy) (now id : Z) (r : res) (h : chk) (o : obs) : option bool :=
   let '(flag, s', i') := o in
   if negb (id =? h_id h) then Some (negb flag && same h s' i')   (* earlier state: ignored *)
   else
     let log' := (sec_of now, r) :: h_log h in
     match h_state h with
-    | Open => None
+    | Open => Some (same h s' i')
     | Closed =>
-        if p_size pol <=? 0 then None else
+        if p_size pol <=? 0 then Some (same h s' i') else
         let v := view (pol_kind pol) (sec_of now) log' in
         Some (negb flag &&
               if (p_min pol <=? Z.of_nat (List.length v)) && trips pol v
               then moved h Open s' i' else same h s' i')
     | HalfOpen =>
-        if p_perm pol <=? 0 then None else
+        if p_perm pol <=? 0 then Some (same h s' i') else
         let v := view (KCount (p_perm pol)) (sec_of now) log' in
         Some (negb flag &&
               if Z.of_nat (List.length v) <? Z.min (p_min pol) (p_perm pol) then same h s' i'
